@@ -8,7 +8,11 @@ Theorems about `Ndn.ClientConf.readClientConf` / `resolveLocation` / `defaultFac
 file-system predicate, every configuration-file content and every URI text.
 Specification vocabulary (does not mention the implementation):
 * `FirstExisting paths ex p` — `p` is the first candidate that exists; `NoneExisting`;
-* `FileSets ls key v` — the first `key = v` line of a file (option names are case-insensitive); `FileSilent`;
+* `assignments ls` — the option assignments of the DEFAULT section of a file, in file order, as
+  (name as written, value joined from its lines) (`Lemmas/ClientConf.lean`: `logical` groups the physical lines
+  into section headers, options with their continuation lines, and stray lines; `defaultOptions` keeps the
+  options that stand under `[DEFAULT]`, which is where a client.conf without headers puts everything);
+* `FileSets ls key v` — the first assignment to `key` in the file (option names are case-insensitive); `FileSilent`;
 * `Setting …` — the value used for a setting: environment, else first existing file, else platform default.
 -/
 namespace Ndn.C20
@@ -19,11 +23,11 @@ def FirstExisting (paths : List Str) (ex : Str → Bool) (p : Str) : Prop :=
 
 def NoneExisting (paths : List Str) (ex : Str → Bool) : Prop := ∀ q ∈ paths, ex q = false
 
-def FileSets (ls : List Line) (key v : Str) : Prop :=
-  ∃ pre post k, ls = pre ++ Line.kv k v :: post ∧ lower k = key ∧
-    ∀ k' v', Line.kv k' v' ∈ pre → lower k' ≠ key
+def FileSets (ls : List Str) (key v : Str) : Prop :=
+  ∃ pre post k, assignments ls = pre ++ (k, v) :: post ∧ lower k = key ∧
+    ∀ k' v', (k', v') ∈ pre → lower k' ≠ key
 
-def FileSilent (ls : List Line) (key : Str) : Prop := ∀ k v, Line.kv k v ∈ ls → lower k ≠ key
+def FileSilent (ls : List Str) (key : Str) : Prop := ∀ k v, (k, v) ∈ assignments ls → lower k ≠ key
 
 /-- The value a setting must have: the environment override if present, else the value in the first
     existing configuration file, else the platform default `dflt`. -/
@@ -40,7 +44,7 @@ def ConfFile (paths : List Str) (ex : Str → Bool) (p : Str) : Prop :=
   FirstExisting paths ex p ∨ (NoneExisting paths ex ∧ p = [])
 
 theorem layer_setting (paths : List Str) (W : World) (hne : [] ∉ paths) (key : Str) (envv : Option Str)
-    (dflt : Str) :
+    (dflt : Str) (hok : getPath paths W.exist ≠ [] → confFails (W.files (getPath paths W.exist)) = false) :
     Setting paths W key envv dflt
       (layer dflt (if getPath paths W.exist = [] then none else fileGet (W.files (getPath paths W.exist)) key) envv) := by
   cases envv with
@@ -50,8 +54,10 @@ theorem layer_setting (paths : List Str) (W : World) (hne : [] ∉ paths) (key :
     · simp only [h1, if_true, layer]
       exact .defaultNoFile rfl h2
     · simp only [h5, h4, if_false]
+      have hok' := hok (h5 ▸ h4)
+      rw [h5] at hok'
       cases hf : fileGet (W.files p) key with
-      | none => exact .defaultSilent p rfl ⟨pre, post, h1, h2, h3⟩ (fileGet_none _ _ hf)
+      | none => exact .defaultSilent p rfl ⟨pre, post, h1, h2, h3⟩ (fileGet_none _ _ hok' hf)
       | some v => exact .file p v rfl ⟨pre, post, h1, h2, h3⟩ (fileGet_some _ _ _ hf)
 
 theorem confFile_getPath (paths : List Str) (ex : Str → Bool) (hne : [] ∉ paths) :
@@ -62,6 +68,7 @@ theorem confFile_getPath (paths : List Str) (ex : Str → Bool) (hne : [] ∉ pa
 
 theorem rawConf_ok (P : Platform) (W : World) (path : Str) (raw : Conf) (h : rawConf P W = .ok (path, raw)) :
     ∃ dt, defaultTransport P W.exist = .ok dt ∧ path = getPath P.confPaths W.exist ∧
+      (path ≠ [] → confFails (W.files path) = false) ∧
       raw = { transport := layer dt (if path = [] then none else fileGet (W.files path) "transport".toList) W.env.transport
               pib := layer P.pibScheme (if path = [] then none else fileGet (W.files path) "pib".toList) W.env.pib
               tpm := layer P.tpmScheme (if path = [] then none else fileGet (W.files path) "tpm".toList) W.env.tpm } := by
@@ -70,22 +77,26 @@ theorem rawConf_ok (P : Platform) (W : World) (path : Str) (raw : Conf) (h : raw
   | error e => simp [hd] at h
   | ok dt =>
     simp only [hd] at h
-    by_cases hdup : hasDup (keysOf (if getPath P.confPaths W.exist = [] then []
-        else W.files (getPath P.confPaths W.exist))) = true
+    by_cases hdup : confFails (if getPath P.confPaths W.exist = [] then []
+        else W.files (getPath P.confPaths W.exist)) = true
     · rw [if_pos hdup] at h; simp at h
     · rw [if_neg hdup] at h
       simp only [Except.ok.injEq, Prod.mk.injEq] at h
       obtain ⟨h1, h2⟩ := h
-      refine ⟨dt, rfl, h1.symm, ?_⟩
-      subst h1
-      rw [← h2]
-      by_cases hp : getPath P.confPaths W.exist = [] <;> simp [hp]
+      refine ⟨dt, rfl, h1.symm, ?_, ?_⟩
+      · subst h1
+        intro hp
+        simpa [hp] using hdup
+      · subst h1
+        rw [← h2]
+        by_cases hp : getPath P.confPaths W.exist = [] <;> simp [hp]
 
 /-- decomposition of a successful `readClientConf` -/
 theorem read_ok (P : Platform) (W : World) (c : Conf) (h : readClientConf P W = .ok c) :
     ∃ dt, defaultTransport P W.exist = .ok dt ∧
       let path := getPath P.confPaths W.exist
       let f := fun k => if path = [] then none else fileGet (W.files path) k
+      (path ≠ [] → confFails (W.files path) = false) ∧
       c.transport = layer dt (f "transport".toList) W.env.transport ∧
       resolveLocation path P.pibPaths W.exist (layer P.pibScheme (f "pib".toList) W.env.pib) = .ok c.pib ∧
       resolveLocation path P.tpmPaths W.exist (layer P.tpmScheme (f "tpm".toList) W.env.tpm) = .ok c.tpm := by
@@ -95,7 +106,7 @@ theorem read_ok (P : Platform) (W : World) (c : Conf) (h : readClientConf P W = 
   | ok pr =>
     obtain ⟨path, raw⟩ := pr
     simp only [hr] at h
-    obtain ⟨dt, hd, hpath, hraw⟩ := rawConf_ok P W path raw hr
+    obtain ⟨dt, hd, hpath, hokf, hraw⟩ := rawConf_ok P W path raw hr
     refine ⟨dt, hd, ?_⟩
     cases h1 : resolveLocation path P.pibPaths W.exist raw.pib with
     | error e => simp [h1] at h
@@ -108,7 +119,7 @@ theorem read_ok (P : Platform) (W : World) (c : Conf) (h : readClientConf P W = 
         subst h
         subst hpath
         rw [hraw] at h1 h2
-        exact ⟨by rw [hraw], h1, h2⟩
+        exact ⟨hokf, by rw [hraw], h1, h2⟩
 
 /-- **precedence (transport).** The transport used is the environment override if present, else the value
     in the first existing configuration file, else the platform default. -/
@@ -116,8 +127,8 @@ theorem precedence_transport (P : Platform) (W : World) (c : Conf) (hne : [] ∉
     (h : readClientConf P W = .ok c) :
     ∃ dt, defaultTransport P W.exist = .ok dt ∧
       Setting P.confPaths W "transport".toList W.env.transport dt c.transport := by
-  obtain ⟨dt, hd, ht, _, _⟩ := read_ok P W c h
-  exact ⟨dt, hd, ht ▸ layer_setting P.confPaths W hne _ _ _⟩
+  obtain ⟨dt, hd, hok, ht, _, _⟩ := read_ok P W c h
+  exact ⟨dt, hd, ht ▸ layer_setting P.confPaths W hne _ _ _ hok⟩
 
 /-- **precedence (public-information store).** The store setting `v` that is resolved is chosen by the same
     rule, and the result is `resolveLocation` of it relative to the configuration file in effect
@@ -126,16 +137,52 @@ theorem precedence_pib (P : Platform) (W : World) (c : Conf) (hne : [] ∉ P.con
     (h : readClientConf P W = .ok c) :
     ∃ v conf, Setting P.confPaths W "pib".toList W.env.pib P.pibScheme v ∧ ConfFile P.confPaths W.exist conf ∧
       resolveLocation conf P.pibPaths W.exist v = .ok c.pib := by
-  obtain ⟨_, _, _, hp, _⟩ := read_ok P W c h
-  exact ⟨_, _, layer_setting P.confPaths W hne _ _ _, confFile_getPath _ _ hne, hp⟩
+  obtain ⟨_, _, hok, _, hp, _⟩ := read_ok P W c h
+  exact ⟨_, _, layer_setting P.confPaths W hne _ _ _ hok, confFile_getPath _ _ hne, hp⟩
 
 /-- **precedence (private-key store).** -/
 theorem precedence_tpm (P : Platform) (W : World) (c : Conf) (hne : [] ∉ P.confPaths)
     (h : readClientConf P W = .ok c) :
     ∃ v conf, Setting P.confPaths W "tpm".toList W.env.tpm P.tpmScheme v ∧ ConfFile P.confPaths W.exist conf ∧
       resolveLocation conf P.tpmPaths W.exist v = .ok c.tpm := by
-  obtain ⟨_, _, _, _, hp⟩ := read_ok P W c h
-  exact ⟨_, _, layer_setting P.confPaths W hne _ _ _, confFile_getPath _ _ hne, hp⟩
+  obtain ⟨_, _, hok, _, _, hp⟩ := read_ok P W c h
+  exact ⟨_, _, layer_setting P.confPaths W hne _ _ _ hok, confFile_getPath _ _ hne, hp⟩
+
+/-! ### the configuration-file reader (`parseConf`, the model of `ConfigParser(interpolation=None).read_string`) -/
+
+/-- **conf_value_is_first_assignment.** When the file is read without error, `parser['DEFAULT']` is exactly
+    the list of option assignments standing under `[DEFAULT]` (the implicit one at the top, or a later explicit
+    one; options under any other section header are not visible), names lower-cased, each value joined from
+    its lines; so the value of a key is that of its first assignment - `FileSets` - and a key without
+    assignment is absent. -/
+theorem conf_value_is_first_assignment (ls : List Str) (d : PyDict Str Str) (h : parseConf ls = .ok d) :
+    d = (assignments ls).map (fun p => (lower p.1, p.2)) ∧
+    (∀ key v, PyDict.get? d key = some v → FileSets ls key v) ∧
+    (∀ key, PyDict.get? d key = none → FileSilent ls key) := by
+  refine ⟨parseConf_ok ls d h, fun key v hg => ?_, fun key hg => ?_⟩
+  · exact fileGet_some ls key v (by simp [fileGet, h, hg])
+  · exact fileGet_none ls key (by simp [confFails, h]) (by simp [fileGet, h, hg])
+
+/-- **conf_errors.** Which texts raise, and what.  With `items = logical ls` (the section headers, options
+    and stray lines of `'[DEFAULT]\n' + text`):
+    * the text is read without error iff no section name (other than DEFAULT) is opened twice, no option
+      name (case-insensitively) is assigned twice under the same section name, and every line that is not
+      a comment, blank, continuation or header is `name <=|:> value` with a non-empty name;
+    * `ParsingError` iff the first two hold and the third fails (it is raised at the end of the file, so a
+      duplicate anywhere wins);
+    * `DuplicateSectionError` / `DuplicateOptionError` only if there is such a duplicate;
+    * `MissingSectionHeaderError` never (the prepended `[DEFAULT]` line). -/
+theorem conf_errors (ls : List Str) :
+    ((∃ d, parseConf ls = .ok d) ↔
+      (headers (logical ls)).Nodup ∧ (qualified none (logical ls)).Nodup ∧ hasBogus (logical ls) = false) ∧
+    (parseConf ls = .error .parsing ↔
+      (headers (logical ls)).Nodup ∧ (qualified none (logical ls)).Nodup ∧ hasBogus (logical ls) = true) ∧
+    (parseConf ls = .error .duplicateSection → ¬ (headers (logical ls)).Nodup) ∧
+    (parseConf ls = .error .duplicateOption → ¬ (qualified none (logical ls)).Nodup) ∧
+    parseConf ls ≠ .error .missingSectionHeader :=
+  ⟨parseConf_ok_iff ls, parseConf_parsing_iff ls,
+   fun h => (parseConf_error ls _ h).2.1 rfl, fun h => (parseConf_error ls _ h).2.2 rfl,
+   fun h => (parseConf_error ls _ h).1 rfl⟩
 
 /-! ### store locations -/
 
@@ -445,12 +492,31 @@ section Examples
 def exWorld : World :=
   { exist := fun p => p = "/etc/ndn/client.conf".toList ∨ p = "/etc/ndn/keys".toList
     files := fun p => if p = "/etc/ndn/client.conf".toList then
-      [.other, .kv "PIB".toList "pib-sqlite3:keys".toList, .kv "transport".toList "tcp://h:1".toList] else []
+      ["# client.conf".toList, "PIB = pib-sqlite3:keys".toList, "".toList, "transport: tcp://h:1".toList,
+       "[extra]".toList, "tpm=tpm-file:/not/looked/at".toList] else []
     env := { transport := none, pib := none, tpm := some "tpm-file".toList } }
 
 /-- precedence_*: a world where a file provides two settings, the environment one, and a relative store path -/
 example : readClientConf (Gen.C20.platform "/home/u".toList) exWorld =
     .ok { transport := "tcp://h:1".toList, pib := "pib-sqlite3:/etc/ndn/keys".toList, tpm := "tpm-file:".toList } := by
+  decide
+
+/-- conf_value_is_first_assignment / conf_errors: comments, both delimiters, upper-case names, a value
+    continued on indented lines (a blank line in between is kept), an empty value, a section that hides its
+    options, a second `[DEFAULT]` that shows them again -/
+example : parseConf ["# c".toList, "Transport = unix:///a".toList, "  ; also a comment".toList,
+      "pib: pib-sqlite3:/x".toList, "   y".toList, "".toList, "   z".toList, "tpm=".toList, "[other]".toList,
+      "transport=tcp://hidden".toList, "[DEFAULT]".toList, "extra = 1".toList]
+    = .ok [("transport".toList, "unix:///a".toList), ("pib".toList, "pib-sqlite3:/x\ny\n\nz".toList),
+           ("tpm".toList, []), ("extra".toList, "1".toList)] := by decide
+example : parseConf ["pib=a".toList, "PIB=b".toList] = .error .duplicateOption := by decide
+example : parseConf ["[s]".toList, "pib=a".toList, "[s]".toList] = .error .duplicateSection := by decide
+example : parseConf ["pib=a".toList, "no delimiter here".toList] = .error .parsing := by decide
+example : parseConf ["= v".toList] = .error .parsing := by decide
+/-- a duplicate wins over a stray line, wherever it stands -/
+example : parseConf ["stray".toList, "pib=a".toList, "pib=b".toList] = .error .duplicateOption := by decide
+/-- an indented first line is an ordinary option (there is nothing to continue) -/
+example : parseConf ["   pib = a".toList, "tpm = b".toList] = .ok [("pib".toList, "a".toList), ("tpm".toList, "b".toList)] := by
   decide
 
 /-- location_existing_as_given / location_relative_to_conf / location_fallback hypotheses are satisfiable -/
